@@ -1,3 +1,4 @@
+pub mod c01;
 pub mod c19;
 pub mod selftest;
 
@@ -6,6 +7,7 @@ use serde_json::Value;
 pub fn dispatch(name: &str, args: &[String]) -> i32 {
 	match name {
 		"selftest" => selftest::run(args),
+		"c01" => c01::run(args),
 		"c19" => c19::run(args),
 		"replay" => replay(args),
 		_ => {
@@ -27,6 +29,7 @@ fn replay(args: &[String]) -> i32 {
 	let prop = v["property"].as_str().unwrap_or("").to_lowercase();
 	println!("replaying {} — {}", v["key"], v["what"]);
 	match prop.as_str() {
+		"c01" => c01::replay(&v["replay"]),
 		"c19" => c19::replay(&v["replay"]),
 		_ => {
 			eprintln!("no replay handler for property {}", prop);
